@@ -543,6 +543,32 @@ func gen(r *vlib.R, n int, tier string, emit func(string)) {
 						emitN(fmt.Sprintf("edns cachewire %s %s %s", vlib.B(r.Bool()), q, u))
 					}
 				}
+			case x < 4 && r.Bool():
+				// the real cache handler serving a hit (byte route when the writer
+				// allows it, message route otherwise), behind the real edns
+				q := genQ(r)
+				q.opcode, q.rd, q.mask, q.opt.ver = 0, true, 0, 0
+				var keep []aOption
+				for _, o := range q.opt.opts {
+					if o.code != optECS {
+						keep = append(keep, o)
+					}
+				}
+				q.opt.opts = keep
+				proto := protoPick(r)
+				target := 0
+				if proto == "udp" && r.Chance(1, 3) {
+					target = limitOf(q) + vlib.Pick(r, []int{-2, -1, 0, 1, 2, 40})
+				}
+				u := genR(r, q, cfg, proto, target, 0)
+				u.mode, u.tc = 'e', false
+				if u.rcode != dns.RcodeNameError {
+					u.rcode = 0
+				}
+				if u.opt.same {
+					u.opt = aOpt{present: true, udp: 1232, opts: genUpstreamOptions(r)}
+				}
+				emitN(fmt.Sprintf("edns hit %s %s %s %s", vlib.Pick(r, []string{"d", "w"}), proto, q, u))
 			case x < 4:
 				q := genQ(r)
 				q.opcode = 0
